@@ -1149,7 +1149,8 @@ pub trait DragonboxFloat: Float {
     /// Or, `ceil((MANTISSA_SIZE + 1) / log2(10)) + 1`.
     const DECIMAL_DIGITS: usize;
     const FC_PM_HALF_LOWER: i32 = -(Self::KAPPA as i32) - floor_log5_pow2(Self::KAPPA as i32);
-    const DIV_BY_5_THRESHOLD: i32 = floor_log2_pow10(Self::KAPPA as i32 + 1);
+    const DIV_BY_5_THRESHOLD: i32 =
+        floor_log2_pow10(floor_log5_pow2(Self::MANTISSA_SIZE + 2) + Self::KAPPA as i32 + 1);
 
     type Power;
 
